@@ -21,6 +21,7 @@
 #
 
 from enum import Enum
+from functools import partial
 
 from simpleline import App
 from simpleline.event_loop import ExitMainLoop
@@ -124,8 +125,22 @@ class InputManager():
                 handler.set_pass_func(self._ui_screen.password_func)
 
         handler.skip_concurrency_check = self._skip_concurrency_check
-        handler.set_callback(self.process_input)
+        # the arguments belong to this request: a later request of the same screen must not
+        # change what the answer to this one is delivered with
+        handler.set_callback(partial(self._process_request_input, args))
         handler.get_input(prompt)
+
+    def _process_request_input(self, args, user_input):
+        """Process the answer to the request which was made with `args`.
+
+        :param args: Arguments of the answered request.
+        :type args: Anything.
+
+        :param user_input: User input string.
+        :type user_input: String.
+        """
+        self._input_args = args
+        self.process_input(user_input)
 
     def _is_input_expected(self, prompt):
         """Check if user handled input processing some other way.
